@@ -293,9 +293,13 @@ def run_check(engine, prop, tier, level="exploration", runs_quick=400, budget_qu
 				known_hit[viol.get("signature") or viol["clause"]] = k
 				continue
 			path = os.path.join(REPLAY_DIR, "%s-%d.json" % (prop, r["seed"]))
+			try:  # the digest a replay must reproduce
+				hd = engine.execute(plan, prop, choices=choices).digest
+			except Exception:
+				hd = None
 			with open(path, "w") as f:
 				json.dump({"property": prop, "engine": engine.name, "tier": tier, "seed": r["seed"],
-					"plan": plan, "choices": choices, "violation": viol,
+					"plan": plan, "choices": choices, "violation": viol, "history_digest": hd,
 					"original_ops": len(r["plan"].get("ops", [])), "minimise_tries": tries},
 					f, indent=1, default=repr)
 			print("VIOLATION property=%s replay=%s" % (prop, path))
@@ -391,7 +395,9 @@ def replay(engine, prop, path):
 	ow = res.owned(prop)
 	want = rp["violation"]["clause"]
 	same = [v for v in ow if v["clause"] == want]
-	print("replay %s: digest=%s violations=%d" % (path, res.digest, len(ow)))
+	hd = rp.get("history_digest")
+	print("replay %s: digest=%s (%s) violations=%d" % (path, res.digest,
+		"identical to the recorded run" if hd == res.digest else ("recorded %s: the tree behaves differently now" % hd if hd else "no recorded digest"), len(ow)))
 	if same:
 		v = same[0]
 		if match_known(known, prop, v):
